@@ -4,7 +4,9 @@
 //! (internal) --shard i/n --out FILE --cases N
 
 mod common;
+mod refmetric;
 
+mod c08;
 mod c13;
 mod c16;
 
@@ -12,7 +14,7 @@ use common::{Check, Opts, Tier};
 use std::path::PathBuf;
 
 fn registry() -> Vec<Box<dyn Check>> {
-    vec![Box::new(c13::C13), Box::new(c16::C16)]
+    vec![Box::new(c08::C08), Box::new(c13::C13), Box::new(c16::C16)]
 }
 
 thread_local! {
